@@ -582,6 +582,96 @@ def correspondence(ctx, corr):
             corr["disagreements"].append({"line": el[k][:3000], "impl": a[:3000], "model": em[k][:3000]})
     corr["streams"]["rd-elf"] = {"lines": len(el), "outside_model_large_section": len(el) - len(keep), "by_status": ek}
     rl = rl + [el[k] for k in keep]
+    # --- read_uf2: the real files and block-aware mutants (flags, byte_count incl. 476/477, magics, address wrap, truncation)
+    ul = []
+    for i in sel:
+        fmt, img = cases[i]
+        if fmt != "uf2":
+            continue
+        w = G.parse_wr(impl[i])
+        if w is None or len(w["file"]) > 70000:
+            continue
+        data = w["file"]
+        ul.append("rd uf2 uf2 %s" % nvlib.hexs(data))
+        nblk = len(data) // 512
+        for _ in range(3):
+            b = bytearray(data)
+            k = rng.randrange(8)
+            blk = rng.randrange(max(1, nblk)) * 512
+            if k == 0:
+                b = b[:rng.randrange(len(b) + 1)]
+            elif k == 1 and nblk:
+                b[blk + 8] ^= rng.choice([1, 1, 2, 0x20])                 # flags (bit 0: not main flash)
+            elif k == 2 and nblk:
+                b[blk + 16:blk + 20] = rng.choice([0, 1, 255, 256, 257, 475, 476, 477, 512, 0xffffffff]).to_bytes(4, "little")
+            elif k == 3 and nblk:
+                b[blk + rng.choice([0, 1, 4, 7, 508, 511])] ^= rng.choice([1, 0x80])       # a magic number
+            elif k == 4 and nblk:
+                b[blk + 12:blk + 16] = rng.choice([0, 0xffffff80, 0xffffffff, 0x7fffffff, 0x80000000]).to_bytes(4, "little")
+            elif k == 5:
+                b += bytes(rng.randrange(256) for _ in range(rng.choice([1, 4, 32, 100, 511])))
+            elif k == 6 and nblk:
+                del b[blk:blk + 512]
+            else:
+                b = b + b[:512]
+            ul.append("rd uf2 uf2 %s" % nvlib.hexs(bytes(b)))
+    ul += ["rd uf2 uf2 " + nvlib.hexs(x) for x in (b"", b"UF2\n", b"UF2\nWQ]\x9e" + bytes(24))]
+    ui = nvlib.run_lines(ctx.harness, ul, timeout=120)
+    um = nvlib.run_lines(exe, ul, env=dict(os.environ), timeout=600)
+    uk = {}
+    for l, a, b in zip(ul, ui, um):
+        corr["cases"] += 1
+        st = a.split(" ")[0]
+        uk[st] = uk.get(st, 0) + 1
+        if a != b:
+            corr["disagreements"].append({"line": l[:3000], "impl": a[:3000], "model": b[:3000]})
+    corr["streams"]["rd-uf2"] = {"lines": len(ul), "by_status": uk}
+    # --- read_ti_txt: TI-TXT files encoded from the images (tools/fileio_spec.py, SLAU101) and text mutants
+    tl = []
+    timgs = [img for f, img in cases if f == "hex" and img["klass"] != "wide"][:ctx.scale(60, 600)]
+    for img in timgs:
+        data = S.encode_ti_txt(expected_cells(img))
+        if len(data) > 60000:
+            continue
+        tl.append("rd ti_txt txt %s" % nvlib.hexs(data))
+        for _ in range(2):
+            b = bytearray(data)
+            k = rng.randrange(10)
+            pos = rng.randrange(len(b))
+            if k == 0:
+                b = bytearray(bytes(b).lower())
+            elif k == 1:
+                b = bytearray(bytes(b).replace(b"\n", b"\r\n"))
+            elif k == 2:
+                b = b[:pos]
+            elif k == 3:
+                b = b[:pos] + rng.choice([b" ", b"\n", b"  \n\n", b"\r", b"q", b"@", b"g", b"\t", b"0", b"F", b"@1", b"x"]) + b[pos:]
+            elif k == 4:
+                b = bytearray(bytes(b).replace(b"q\n", b""))
+            elif k == 5:
+                b = bytearray(b"@%X\n" % rng.choice([0, 1, 0xfffe, 0x12345, 0xfffffffe, 0xffffffff, 0x100000000, 0x123456789])) + b"AA BB \n" + b
+            elif k == 6:
+                del b[pos:pos + rng.randrange(1, 4)]
+            elif k == 7:
+                b[pos] = rng.choice(b"0123456789ABCDEFabcdefq@ \n\rxyzG:")
+            elif k == 8:
+                b = bytearray(bytes(b).replace(b" ", b"  ", 3))
+            else:
+                b = b + b"@FFFF\n12 345 6\nq"
+            tl.append("rd ti_txt txt %s" % nvlib.hexs(bytes(b)))
+    tl += ["rd ti_txt txt " + nvlib.hexs(x) for x in (b"", b"q", b"@", b"@10", b"@10\n1", b"@10\nAB", b"@10\nAB\nq\n", b"12 34", b"@ffffffff\n01 02 03\nq\n",
+                                                        b"@1\n@2\n55\nq", b"\n\n\n@8000\n\n01\n", b"@8000 01 02q03", b"@80 00\n", b"@8000\n1 2 3 100 1ff\nq\n")]
+    ti = nvlib.run_lines(ctx.harness, tl, timeout=120)
+    tm = nvlib.run_lines(exe, tl, env=dict(os.environ), timeout=600)
+    tk = {}
+    for l, a, b in zip(tl, ti, tm):
+        corr["cases"] += 1
+        st = a.split(" ")[0]
+        tk[st] = tk.get(st, 0) + 1
+        if a != b:
+            corr["disagreements"].append({"line": l[:3000], "impl": a[:3000], "model": b[:3000]})
+    corr["streams"]["rd-ti_txt"] = {"lines": len(tl), "by_status": tk}
+    rl = rl + ul + tl
     corr["distinct_nontrivial"] = len(set(l for l in wl if ";" in l)) + len(set(rl))
     corr["samples"] = [{"line": wl[i][:200], "impl": wi[i][:200], "model": wm[i][:200]} for i in range(0, len(wl), max(1, len(wl) // 4))][:4]
 
